@@ -440,9 +440,18 @@ pub fn capability_walk_case(caps: &[CapSpec], reverse: bool) -> Vec<(String, Str
 /// The same with further bits set in the function's status register (DEVSEL timing, 66 MHz,
 /// interrupt status, error bits): only the capabilities-list bit decides whether there is a list.
 pub fn capability_walk_case_status(caps: &[CapSpec], reverse: bool, status_extra: u16) -> Vec<(String, String)> {
+    capability_walk_case_full(caps, reverse, status_extra, true)
+}
+
+/// `list_bit` = false: the capabilities pointer and the chain behind it are there, but the
+/// function does not advertise a capability list in its status register: there is no list.
+pub fn capability_walk_case_full(caps: &[CapSpec], reverse: bool, status_extra: u16, list_bit: bool) -> Vec<(String, String)> {
     let mut f = PciFunc::new(0x1af4, 0x1042);
     f.status = status_extra & !0x10;
     let offs = layout_caps(&mut f, caps, reverse);
+    if !list_bit {
+        f.status &= !0x10;
+    }
     let bus = new_bus(f, DF);
     bus.borrow_mut().reads_budget = Some(10_000);
     let root = PciRoot::new(ModelCam { bus: bus.clone() });
@@ -450,7 +459,7 @@ pub fn capability_walk_case_status(caps: &[CapSpec], reverse: bool, status_extra
     match crate::util::catch(|| root.capabilities(DF).collect::<Vec<_>>()) {
         Err(p) => out.push(("capabilities-panic".into(), p)),
         Ok(g) => {
-            let want: Vec<(u8, u8, u16)> = caps.iter().zip(offs.iter()).map(|(c, o)| (*o, c.id, u16::from_le_bytes([c.body.first().copied().unwrap_or(0), c.body.get(1).copied().unwrap_or(0)]))).collect();
+            let want: Vec<(u8, u8, u16)> = if list_bit { caps.iter().zip(offs.iter()).map(|(c, o)| (*o, c.id, u16::from_le_bytes([c.body.first().copied().unwrap_or(0), c.body.get(1).copied().unwrap_or(0)]))).collect() } else { vec![] };
             let got: Vec<(u8, u8, u16)> = g.iter().map(|c| (c.offset, c.id, c.private_header)).collect();
             if got != want {
                 out.push(("capabilities-walk".into(), format!("capability walk yielded {:x?}, the list is {:x?}", got, want)));
